@@ -638,7 +638,7 @@ _m("C09", "Proved for every I-JSON value with scalar member names: the compact t
    "Axioms: exactly the four standard-library axioms Flocq's theorems use (ClassicalDedekindReals.sig_forall_dec, sig_not_dec, "
    "FunctionalExtensionality.functional_extensionality_dep, Classical_Prop.classic); the structural theorems are axiom-free. The digit "
    "search is proved total on valid finite doubles (17 digits suffice), shortest over ALL decimals and closest among the shortest "
-   "(ECMA-262 Number::toString step 5); the one residue is a vacuous-looking tie alternative (k = 1, 9 vs 10) that is not excluded. "
+   "with an even s on a tie (ECMA-262 Number::toString step 5 in full, no residue: a 9 vs 10 tie is proved impossible). "
    "The four layout cases of the rendering are a direct transcription, covered by the Appendix B rows and the round trip.",
    "Coq proof (insertion sort by a total order = sorted-members spec; Flocq-backed correct rounding and round trip) + correspondence of canonical bytes with jcs")
 _m("C10", "Proved: canonicalization is idempotent (for the reference conversion unconditionally; for any conversion that is idempotent on "
@@ -959,7 +959,8 @@ _m("C16", "Proved for EVERY type environment, type descriptor and datum of the s
           "premise on them (hyp=1), and also hands from_value 20k ill-typed edits of serialized values.",
    "The structural theorems are axiom-free; the theorems about the binary32 reference (C16_nearest_single_correct: sgl is the IEEE-754 "
    "round-to-nearest-even binary32 of the exact decimal; C16_sgl_spelling; C16_f32_printer_round_trips: the reference shortest-digits "
-   "printer reads back to the same bit pattern for every finite f32) depend on Flocq's theorems, i.e. on the four standard-library axioms. "
+   "printer reads back to the same bit pattern for every finite f32; C16_f32_shortest: its digits are the fewest of ANY decimal that rounds to "
+   "the binary32 (at most 9), closest among those, larger digit string on a tie; C16_f32_printer_digits) depend on Flocq's theorems, i.e. on the four standard-library axioms. "
    "Floats are bit patterns; the printers enter the theorems as explicit "
    "premises (the spelling of a finite float reads back, correctly rounded, as that float; serde_json floats are non-integer-spelled), "
    "each re-checked by the run on every recorded spelling and on samples inside Coq.",
